@@ -120,20 +120,23 @@ def clockRateBits (mods : Nat) (custom : Option Nat) : Nat :=
     else if mods / 256 % 2 = 1 then 0x3FE8000000000000
     else 0x3FF0000000000000
 
-/-- decode + prepare: the prepared objects and `total_columns as usize` -/
+/-- the preparation of a decoded map: the prepared objects and `total_columns as usize` -/
+def preparedOf (d : Decoded) : Out (List (Prepared R) × Nat) :=
+  if d.mode ≠ 3 then .notMania d.mode
+  else
+    match d.objects with
+    | none => .panic
+    | some (objs, _) =>
+      let total := totalColumns P (P.dec32 (unkey32 d.diff.cs))
+      match prepareAll P total (objs.map (·.2)) with
+      | none => .unsupported
+      | some l => .ok (l, P.toUsize total)
+
+/-- decode + prepare -/
 def prepared (bytes : List UInt8) : Out (List (Prepared R) × Nat) :=
   match fromBytes bytes with
   | none => .ioError
-  | some d =>
-    if d.mode ≠ 3 then .notMania d.mode
-    else
-      match d.objects with
-      | none => .panic
-      | some (objs, _) =>
-        let total := totalColumns P (P.dec32 (unkey32 d.diff.cs))
-        match prepareAll P total (objs.map (·.2)) with
-        | none => .unsupported
-        | some l => .ok (l, P.toUsize total)
+  | some d => preparedOf P d
 
 /-- attributes from the counting model and the final skill state -/
 def attrsOf (c : Gradual.ManiaCounts) (st : StateV R (ManiaSkill.St R)) : Attrs R :=
